@@ -177,6 +177,9 @@ def plan(prop):
         for groups in (((1,), (2,), (2, 1)) if Q else ((1,), (2,), (2, 1), (3,), (2, 2))):
             obs.append((core, lambda ctx, g=groups: co.ob_registry_ctx_step(ctx, g)))
     if prop == 'C02':
+        import pragmatic_obligations as po
+        for n in (1, 2):
+            obs.append(('vrp-pragmatic', lambda ctx, n=n: po.ob_unassigned_writer(ctx, n)))
         for n in (1, 2):
             obs.append((core, lambda ctx, n=n: co.ob_insertion_step(ctx, n)))
         for n in ((1, 2) if Q else (1, 2, 3)):
